@@ -188,10 +188,19 @@ def main(argv=None):
             json.dump(base_all, f, indent=0, sort_keys=True)
     baseline = base_all.get(pid, [])
     regress = []
+
+    def _site_key(name):
+        # a call-site obligation is named after the function that contains the call; moving the call into / out of a helper
+        # or a nested function renames it without changing what is proved: compare those by callee and clause only
+        m = re.match(r'^(.*?):pre@callsite\[(.*?)\]:(.*)$', name)
+        return ('pre@callsite', m.group(2), m.group(3)) if m else None
+    proved_site_keys = set(_site_key(o['name']) for o in proved if _site_key(o['name']))
     if not args.unit:
         for name in baseline:
             o = obligations.get(name)
             if o is None:
+                if _site_key(name) in proved_site_keys:
+                    continue
                 regress.append((name, 'missing'))
             elif o['status'] in (UNDECIDED, UNCHECKED):
                 regress.append((name, o['status']))
